@@ -37,6 +37,8 @@ def run(ctx):
     r186(ctx)
     r187(ctx)
     r1812_extended_key(ctx)
+    from ..statrules import memo_soundness
+    memo_soundness(ctx, 'R18.13', ['parameters'])
     from ..statrules import shared_class_state
     shared_class_state(ctx, 'R18.11', sorted(c for c, ci in ctx.prog.classes.items() if ci.module.name == 'parameters'),
                        'children added to one parameter map (or options of one selection parameter) appear in every other one')
